@@ -6,15 +6,21 @@ VERIF = os.path.dirname(os.path.dirname(os.path.abspath(__file__)))
 
 # pid -> (technique, level text, level note, design section)
 CLAIMED = {
-    'C14': ('Coq proof: list+dict refinement to a plain list, invariant by induction over op histories; step-by-step correspondence',
-            'Machine-checked theorems over a faithful Gallina model of IndexedList: the dict/list coherence invariant (the id maps to the last '
-            'object of the list carrying it) is preserved by every mutator and holds in every reachable state (induction over histories, any '
+    'C14': ('Coq proof: list+dict refinement to a plain list, invariant by induction over op histories; the step function interprets '
+            'per-mutator programs regenerated from class IndexedList by a fail-closed translator; step-by-step correspondence',
+            'Machine-checked theorems over a Gallina interpreter of per-mutator programs that are regenerated from the source of '
+            'collada.util.IndexedList on every build (one instruction per Python statement, in source order: position resolution, '
+            'argument materialisation, the list operation, the index update, caught exception classes). The interpreter is proved equal '
+            'to a hand-written reading of the mutators, and for it: the dict/list coherence invariant (the id maps to the last object of '
+            'the list carrying it) is preserved by every mutator and holds in every reachable state (induction over histories, any '
             'length, colliding ids, bulk/lazy/failing argument forms), the list component behaves as a plain list, failed operations are '
-            'no-ops. The model is tied to the code by running both on the same histories and comparing every step inside Coq; a direct oracle '
-            'evaluates the property clauses on the implementation (also on every list object the attribute ever returned, with falsy '
-            'elements, with another document\'s live list adopted, and on histories run without any look-up between operations).',
-            'Trusts the Coq kernel/vm_compute, the hand-written model (checked by correspondence on every run), the harness. '
-            'Slices and sort() are outside the property\'s operation list; histories without intermediate look-ups are oracle-only.',
+            'no-ops, look-ups never escape. The model is additionally tied to the code by running both on the same histories and '
+            'comparing every step inside Coq; a direct oracle evaluates the property clauses on the implementation (also on every list '
+            'object the attribute ever returned, with falsy elements, with another document\'s live list adopted, and on histories run '
+            'without any look-up between operations).',
+            'Trusts the Coq kernel/vm_compute, the translator\'s statement forms and the interpreter\'s semantics of each instruction '
+            '(checked by correspondence on every run), the harness. Slices and sort() are outside the property\'s operation list; '
+            'histories without intermediate look-ups are oracle-only.',
             '7/C14 and 12'),
 }
 
